@@ -191,7 +191,9 @@ class CGenerator:
         # no_type is used when a Decl is part of a DeclList, where the type is
         # explicitly only for the first declaration in a list.
         #
-        s = n.name if no_type else self._generate_decl(n)
+        # Without the type, a declarator still keeps its own pointer / array /
+        # function parts ('for (int i = 0, *p = 0;;)').
+        s = self._generate_type(n.type, emit_type=False) if no_type else self._generate_decl(n)
         if n.bitsize:
             s += " : " + self._visit_constant_expr(n.bitsize)
         if n.init:
@@ -509,6 +511,7 @@ class CGenerator:
         n: c_ast.Node,
         modifiers: List[c_ast.Node] = [],
         emit_declname: bool = True,
+        emit_type: bool = True,
     ) -> str:
         """Recursive generation from a type node. n is the type node.
         modifiers collects the PtrDecl, ArrayDecl and FuncDecl modifiers
@@ -555,6 +558,8 @@ class CGenerator:
                                 nstr = f"* {quals}{suffix}"
                             else:
                                 nstr = "*" + nstr
+                if not emit_type:
+                    return nstr
                 if nstr:
                     s += " " + nstr
                 return s
@@ -566,7 +571,10 @@ class CGenerator:
                 return " ".join(n.names) + " "
             case c_ast.ArrayDecl() | c_ast.PtrDecl() | c_ast.FuncDecl():
                 return self._generate_type(
-                    n.type, modifiers + [n], emit_declname=emit_declname
+                    n.type,
+                    modifiers + [n],
+                    emit_declname=emit_declname,
+                    emit_type=emit_type,
                 )
             case _:
                 return self.visit(n)
